@@ -1276,6 +1276,13 @@ class FD:
                 return getattr(recv, attr)(*args, **kwargs)
             except (TypeError, ValueError, LookupError) as ex:
                 raise Raised(type(ex).__name__, str(ex))
+        if isinstance(recv, (bytes, bytearray)) and attr in ('decode', 'startswith', 'endswith', 'replace', 'split',
+                                                             'strip', 'lstrip', 'rstrip', 'lower', 'upper', 'hex',
+                                                             'count', 'find', 'splitlines'):
+            try:
+                return getattr(recv, attr)(*args, **kwargs)
+            except (TypeError, ValueError, LookupError) as ex:
+                raise Raised(type(ex).__name__, str(ex))
         if isinstance(recv, (_RE_PATTERN, _RE_MATCH)) and attr in _PURE_RE_METHODS:
             # compiled regular expressions and their matches: pure objects of the standard library
             if any(isinstance(a, (Obj, Opaque)) or a is UNKNOWN for a in list(args) + list(kwargs.values())):
